@@ -1,8 +1,12 @@
 package bpmn
 
 import (
+	"context"
+
 	"github.com/olive-io/bpmn/schema"
+	"github.com/olive-io/bpmn/v2/pkg/data"
 	"github.com/olive-io/bpmn/v2/pkg/event"
+	"github.com/olive-io/bpmn/v2/pkg/expression"
 	"github.com/olive-io/bpmn/v2/pkg/id"
 	"github.com/olive-io/bpmn/v2/pkg/tracing"
 )
@@ -65,4 +69,71 @@ func VerifC17_EventDelivery() {
 	inst.proc.ConsumeEvent(event.NewSignalEvent("noise"))
 	_ = inst.proc.RegisterEventConsumer(event.VoidConsumer{})
 	verifReach("done")
+}
+
+// C17.d: condition evaluation by two tokens at the same time.  Real flow.executeSequenceFlow and the real
+// expression.GetEngine / RegisterEngine; the engine registered for the instance's expression language is a stand-in that
+// (like the real expr engine, which writes its env and locator maps on every call) is NOT goroutine-safe: every method
+// marks the instance busy, yields, and checks that nobody else entered.  Two goroutines using one engine instance at the
+// same time is exactly what the race detector reports for the real engine's maps.
+type verifBusyEngine struct{ busy int64 }
+
+func (e *verifBusyEngine) enter() {
+	e.busy++
+	verifYield()
+	verifAssert(e.busy == 1, "an expression engine instance is never used by two goroutines at the same time")
+}
+func (e *verifBusyEngine) CompileExpression(source string) (expression.ICompiledExpression, error) {
+	e.enter()
+	e.busy--
+	return source, nil
+}
+func (e *verifBusyEngine) EvaluateExpression(c expression.ICompiledExpression, props interface{}) (expression.IResult, error) {
+	e.enter()
+	m, _ := props.(map[string]any)
+	r := m[c.(string)]
+	e.busy--
+	return r, nil
+}
+func (e *verifBusyEngine) SetItemAwareLocator(string, data.IItemAwareLocator) {
+	e.enter()
+	e.busy--
+}
+
+func VerifC17_ConcurrentConditions() {
+	v1 := verifNondetBool("v1")
+	v2 := verifNondetBool("v2")
+	b := verifNewB("p")
+	b.task("a", []string{"in"}, []string{"f1", "f2"})
+	b.flow("in", "s", "a", false)
+	b.flow("f1", "a", "t1", true)
+	b.flow("f2", "a", "t2", true)
+	b.task("t1", []string{"f1"}, nil)
+	b.task("t2", []string{"f2"}, nil)
+	b.cond("f1", v1)
+	b.cond("f2", v2)
+	inst := verifNewInst(b)
+	if inst.proc == nil {
+		return
+	}
+	if verifSymbolic() {
+		expression.RegisterEngine(*inst.defs.ExpressionLanguage(), func(ctx context.Context) expression.IEngine { return &verifBusyEngine{} })
+	}
+	p := inst.proc
+	pe := &inst.defs.ProcessField[0]
+	sfs := [2]*SequenceFlow{NewSequenceFlow(&pe.SequenceFlowField[1], pe), NewSequenceFlow(&pe.SequenceFlowField[2], pe)}
+	want := [2]bool{v1, v2}
+	var done int64
+	verifReach("registered")
+	for i := 0; i < 2; i++ {
+		fl := newFlow(inst.defs, inst.nodeAt("a"), p.subTracer, p.flowNodeMapping, &p.flowWaitGroup, p.idGenerator, nil, p.locator)
+		go func() {
+			r, err := fl.executeSequenceFlow(inst.ctx, sfs[i], false)
+			verifAssert(err == nil && r == want[i], "a condition evaluated concurrently with another token's condition yields its own result")
+			verifAdd(&done, 1)
+		}()
+	}
+	verifQuiesce()
+	verifReach("done")
+	verifAssert(verifGet(&done) == 2, "both evaluations return")
 }
